@@ -36,7 +36,17 @@ RECURSIVE Binary(_)
 Binary(e) == IF e.op \in {"leaf"} THEN e
              ELSE IF e.op = "not" THEN [e EXCEPT !.args = <<Binary(e.args[1])>>]
              ELSE [e EXCEPT !.args = [x \in 1..Len(e.args) |-> Binary(e.args[x])]]
-P_Algebra(r) == r.refl = NF(r.e)
+\* Duplicates are recognised among the same objects: two composite types built separately are different objects even when
+\* they have the same structure ((b | d | d) and (b | d)), so the constructed tree may keep both.  The comparison is
+\* therefore made modulo structurally equal composite siblings, while equal leaves must have been absorbed.
+RECURSIVE Canon(_), NoLeafDup(_)
+Canon(t) == IF t.op = "leaf" THEN t
+            ELSE IF t.op = "not" THEN [t EXCEPT !.args = <<Canon(t.args[1])>>]
+            ELSE LET kept == DedupE([x \in 1..Len(t.args) |-> Canon(t.args[x])], <<>>) IN
+                 IF Len(kept) = 1 THEN kept[1] ELSE [t EXCEPT !.args = kept]
+NoLeafDup(t) == /\ \A x, y \in 1..Len(t.args) : (x < y /\ t.args[x].op = "leaf") => t.args[x] # t.args[y]
+                /\ \A x \in 1..Len(t.args) : NoLeafDup(t.args[x])
+P_Algebra(r) == Canon(r.refl) = NF(r.e) /\ NoLeafDup(r.refl)
 
 Clause == IF R.kind = "alg" THEN (IF P_Algebra(R) THEN "none" ELSE "Algebra")
           ELSE CASE R.c.op = "union" -> IF P_Union(R.c, R.r, ConfT) THEN "none" ELSE "Union"
